@@ -58,6 +58,8 @@ struct Adv<'a> {
     history: Vec<Vec<u8>>,
     h_tcp_conn: SocketHandle,
     ctx6: Ctx6,
+    /// the device sometimes has few or no free transmit slots during a call (a third of the runs)
+    bp: bool,
 }
 
 fn hexs(b: &[u8]) -> String {
@@ -163,13 +165,25 @@ impl<'a> Adv<'a> {
         self.hash.u64(self.now as u64);
         self.hash.bytes(&frame);
         self.node.dev.rx.push_back(frame);
-        let info = if single { self.node.poll_ingress_single(self.now)? } else { self.node.poll(self.now)? };
-        self.observe(&info)
+        self.squeeze();
+        let info = if single { self.node.poll_ingress_single(self.now) } else { self.node.poll(self.now) };
+        self.node.dev.tx_budget = None;
+        self.observe(&info?)
+    }
+    /// device back-pressure for the next call: zero to two free transmit slots
+    fn squeeze(&mut self) {
+        if self.bp && self.tape.draw(4) == 0 {
+            self.node.dev.tx_budget = Some(self.tape.draw(3) as usize);
+            self.stats.inc("adv.calls-under-back-pressure");
+        }
     }
     fn poll(&mut self) -> Result<Vec<Option<Packet>>, Violation> {
         self.events += 1;
         self.hash.u64(self.now as u64);
-        let info = self.node.poll(self.now)?;
+        self.squeeze();
+        let info = self.node.poll(self.now);
+        self.node.dev.tx_budget = None;
+        let info = info?;
         // poll_at must be callable in every state too
         let _ = self.node.poll_at(self.now)?;
         self.observe(&info)
@@ -934,7 +948,8 @@ pub fn run(tape: &mut Tape, props: Props, thorough: bool, trace_on: bool, force:
         }
     }
     let desc = format!("adversary medium={:?} mtu={} slaac={} csum={:?} 6lowpan-contexts={}", medium, mtu, slaac, cfg.csum, ctx6.len());
-    let mut a = Adv { tape, props, node, view, medium, now: 1_000_000, stats: Stats::default(), hash: LogHash::new(), trace: vec![], trace_on, events: 0, v4, v6a, p4: IpAddr::V4([10, 0, 0, 2]), p6, seqno: 0, tcp_est: Some((40000, 81, 0, 0)), dns_q: vec![], dhcp_xid: None, history: vec![], h_tcp_conn, ctx6 };
+    let mut a = Adv { tape, props, node, view, medium, now: 1_000_000, stats: Stats::default(), hash: LogHash::new(), trace: vec![], trace_on, events: 0, v4, v6a, p4: IpAddr::V4([10, 0, 0, 2]), p6, seqno: 0, tcp_est: Some((40000, 81, 0, 0)), dns_q: vec![], dhcp_xid: None, history: vec![], h_tcp_conn, ctx6, bp: false };
+    a.bp = a.tape.draw(3) == 0;
     let r = body(&mut a, thorough, h_udp, h_dns);
     let nontrivial = a.stats.get("adv.frames") >= 10 && a.stats.get("adv.mutated") >= 1;
     a.stats.add("sim.seconds", (a.now / 1_000_000) as u64);
@@ -1138,6 +1153,7 @@ fn probe(a: &mut Adv) -> Result<(), Violation> {
         return Ok(());
     }
     // let pending work drain on an accepting device
+    a.bp = false;
     a.node.dev.tx_budget = None;
     a.now += 2_000_000;
     a.poll()?;
